@@ -104,6 +104,12 @@ class ScriptedSession(FakeSession):
         lat = getattr(self, 'latency', {}).get(who)
         if lat:
             await asyncio.sleep(lat)     # a slow answer: it may arrive after somebody else has already re-authenticated
+        first = getattr(self, 'first_answers', {})
+        if who in first and not env.counters.get(f'first:{self.name}:{who}'):
+            # this request's first attempt meets a server error instead (it will sleep in its backoff while others re-authenticate)
+            env.count(f'first:{self.name}:{who}')
+            env.log('attempt', who=who, session=self.name, answer=first[who])
+            return FakeResponse(status=int(first[who]), headers={}, body=status_body(int(first[who])), url=url, method=method)
         if not self.valid:
             env.log('attempt', who=who, session=self.name, answer='401')
             return FakeResponse(status=401, headers={}, body=status_body(401), url=url, method=method)
@@ -180,6 +186,7 @@ class ReauthScenario(Scenario):
         s1 = ScriptedSession(env.world, env, [], 's1')
         s1.valid = False     # the credentials have expired: every request on them gets 401
         s1.latency = dict(self.params.get('latency') or {})   # type: ignore[attr-defined]
+        s1.first_answers = dict(self.params.get('first_answers') or {})   # type: ignore[attr-defined]
         registry = kopf.OperatorRegistry()
         sessions = [s1]
 
@@ -403,6 +410,9 @@ def run(tier: str, seed: int) -> CheckResult:
     reauth = [ReauthScenario(concurrent=n, login_time=lt, second_expires=se, latency=lat)
               for n in (1, 2, 3) for lt in (0.0, 1.0) for se in (False, True)
               for lat in ([None] if n == 1 else [None, {'r0': 2.0}, {'r0': 0.5}, {'r0': 3.0, 'r1': 0.25}])]
+    # one request sleeps in its retry backoff after a 5xx while the others' 401 makes the session be replaced under it
+    reauth += [ReauthScenario(concurrent=n, login_time=lt, second_expires=False, latency=None, first_answers=fa)
+               for n in (2, 3) for lt in (0.0, 0.5, 2.0) for fa in ({'r0': '500'}, {'r1': '503'}, {'r0': '500', 'late': '500'})]
     groups = [('reauth', reauth, 1 if tier == 'quick' else 2, 30.0), ('throttling', throttle_scenarios(tier), 1 if tier == 'quick' else 2, 60.0 if tier == 'quick' else 600.0)]
     st2, v2, info, nscen = run_groups(groups, seed=seed)
     retry_execs = total.executions
